@@ -13,20 +13,28 @@ LEAN_TARGETS = ["Gama.Props.C14"]
 DRIVERS = ["drv_revise"]
 RULE = ("generated 2D/3D networks (directions, distances, angles, azimuths, slope distances, zenith angles, height "
         "differences, vectors; stdev varied against sigma-apr) with injected defects: isolated point, point with one "
-        "determining element, single-direction station, two directions to one target, observation to an unknown id, "
+        "determining element, single-direction station, two directions to one target, one usable + one unusable direction "
+        "target, observation to an unknown id, correlated clusters (<cov-mat> band 1..n-1 on <obs>, <height-differences>, "
+        "<vectors>, rows shuffled, linear observations disturbed so that the weights matter), "
         "blunders of positional size f*tol-abs (f in 0.3 … 1-1e-5, 1+1e-5 … 30) x tol-abs in {10,100,1000,5000}; "
         "in-process: with and without Acord2; end-to-end: x 4 algorithms.  non-trivial = at least one point or "
         "observation excluded; distinct by the text of the .gkf")
 LEVEL_TEXT = ("Lean 4 theorems (all networks, unbounded) about an executable model of LocalNetwork's revision and "
               "absolute-term exclusion, whose requirement table, absolute-term formulas, comparison operator, consulted "
-              "vector and reason codes are regenerated from the C++ on every run; the hand-written rest is tied to the "
-              "C++ by in-process differential correspondence (GKFparser -> LocalNetwork vs model on the same encoded "
-              "network) and checked end-to-end on gama-local (result = result of the input with the excluded items "
-              "deleted; every exclusion visible in --text).")
+              "vector and reason codes are regenerated from the C++ on every run: exclusion iff one of the stated reasons "
+              "(sound and complete), the tree's absolute-term test characterised exactly (entry consulted, factor "
+              "sigma-apr/stdev, strict comparison; C14-F1 = 'coincides with the positional misclosure iff the factor is 1'), "
+              "state after the exclusions = revised input with the excluded items deleted (deletion defined on the input, "
+              "including rows/columns of correlated covariance blocks; stable), and the assembly loop / covariance blocks "
+              "read that view only.  The hand-written rest is tied to the C++ by in-process differential correspondence "
+              "(GKFparser -> LocalNetwork vs model on the same encoded network, including the homogenised vector) and "
+              "checked end-to-end on gama-local (result = result of the input with the excluded items deleted, also for "
+              "correlated clusters; every exclusion visible in --text).")
 LEVEL_NOTE = ("Trusted: Lean kernel; the statements in Props/C14.lean including the hand-written specification tables "
               "(which flags each observation type needs, the positional-misclosure formulas); the translator "
               "tools/gen/c14_revision.py (validated by the correspondence); harness, generator, comparator. "
-              "Equality of the adjustment results for equal active sets is C05/C01's subject and is checked here "
+              "That gama's linearisation visitor and solvers are functions of the proved view (an instance of the "
+              "assembly loop `assemble`, C05/C01) is a named hypothesis of C14_results_equal_deletion and is checked here "
               "numerically only.")
 TECHNIQUE = "Lean 4 proof over a model partly regenerated from the source (translator) + model/implementation correspondence + end-to-end oracle"
 TRUSTED = ["tools/gen/c14_revision.py: regex/mini-parser translator of local_revision.{h,cpp} and TestAbsTermVisitor",
@@ -35,7 +43,10 @@ MODELLED = ["removals for numerical reasons (singular_coords, huge covariances i
             "cases in which they fire are counted and left out of the comparison",
             "Acord2 (approximate coordinates, orientations) runs before the modelled code; its result is taken as input",
             "the vectors rhs_ and b (linearisation, homogenisation by the Cholesky factor of the weights) are inputs of "
-            "the absolute-term model (C05/C10)",
+            "the absolute-term model (C05/C10); for networks without correlations the model's homogenisation "
+            "(homDiag: b = rhs / sqrt(stdev^2/m0^2)) is compared with the member b of the C++ on every case",
+            "stability of the absolute-term stage on the deleted input (its rhs/b are those of the kept observations) is "
+            "not proved; for correlated blocks b of the deleted input is not a sub-vector of the original b (C14-F1)",
             "PD[m->to()] in test_abs_term inserts an empty point \"\" into PointData for X, Y, Z observations (not modelled; unused point)",
             "tst_* flag cascade (C04): the model's revise is the forced re-run"]
 ASSUMPTIONS = ["IEEE rounding is not modelled: the absolute-term theorem is about the exact comparison the code performs; "
@@ -402,6 +413,10 @@ def oracle_one(ctx, gama, work, net, res, algs, parsed):
     except (ValueError, AssertionError):
         dele = None
         stats["oracle_no_deletion_partial_item"] = 1
+    if dele is not None:
+        k = sum(1 for o, fl in zip(net["obs"], keep) if o.get("cov") and o.get("band") and not all(fl) and any(fl))
+        if k:
+            stats["oracle_correlated_clusters_with_rows_deleted"] = k
     p_orig = res["path"]
     p_del = work.put(c14_nets.to_gkf(dele)) if dele is not None else None
     outl_expected = [i + 1 for i, t in enumerate(absb.get("terms", [])) if hex2float(t) != 0.0] if absb["flag"] == "1" else []
@@ -472,7 +487,9 @@ def gen_nets(ctx, n_rev, n_e2e):
             j = json.loads(f.read_text())
             nets.append((j["net"], j.get("acord", True), True))
     fams = [["isolated"], ["one_element"], ["single_dir"], ["dup_dir"], ["unknown_to"], ["blunder"], ["blunder2"],
-            ["blunder_w"], ["blunder_w"], ["angle_fs_missing"], ["zangle_mid"], ["isolated", "single_dir", "blunder2"], []]
+            ["blunder_w"], ["blunder_w"], ["angle_fs_missing"], ["zangle_mid"], ["isolated", "single_dir", "blunder2"], [],
+            ["single_dir_passive"], ["single_dir_passive", "blunder"], ["corr", "unknown_to"], ["corr", "one_element"], ["corr", "single_dir"], ["corr", "angle_fs_missing"],
+            ["corr", "unknown_to", "dup_dir"], ["corr", "one_element", "unknown_to"]]
     for k in range(n_e2e):
         want = fams[k] if k < len(fams) else None
         nets.append((c14_nets.make_case(ctx.rng, want=want), True, True))
@@ -499,6 +516,8 @@ def check_nets(ctx, corr, nets, algs, label="net"):
                 corr.count("rejected_observations", len(blocks[-1].get("rejected", [])))
             if any(b.get("flag") == "1" for b in blocks):
                 corr.count("nets_with_outlying_terms")
+            if any("hom" in b for b in blocks):
+                corr.count("hom_vectors_compared")
             for d in net.get("defects", []):
                 corr.count("defect_" + d[0])
             if r["crash"]:
@@ -545,6 +564,10 @@ def correspond(ctx, corr):
     if corr.stats.get("oracle_networks", 0) and \
             corr.stats.get("oracle_numeric_removal", 0) + corr.stats.get("oracle_skipped_numeric", 0) > 0.5 * 4 * corr.stats["oracle_networks"]:
         corr.inconclusive.append("more than half of the end-to-end runs hit numerical removals (C20) and were skipped")
+    if not corr.stats.get("oracle_correlated_clusters_with_rows_deleted", 0):
+        corr.inconclusive.append("no correlated cluster (band > 0) lost a row/column in the end-to-end deletion comparison")
+    if not corr.stats.get("hom_vectors_compared", 0):
+        corr.inconclusive.append("the homogenised vector was never compared (no network without correlations reached the abs-term op)")
     if len(corr.nontrivial) < 0.3 * corr.evaluations:
         corr.inconclusive.append("fewer than 30 % of the networks had an exclusion")
 
@@ -554,7 +577,7 @@ def search(ctx, broken, corr):
     c2 = Corr()
     nets = [(c14_nets.boundary_case(op=op), True, True) for op in ("eq", "above", "below")]
     nets += [(m, True, ["gso"]) for m in c14_nets.matrix_cases()]
-    fams = [["dup_dir"], ["single_dir"], ["isolated"], ["one_element"], ["blunder"], ["blunder2"], ["unknown_to"],
+    fams = [["dup_dir"], ["single_dir"], ["single_dir_passive"], ["isolated"], ["one_element"], ["blunder"], ["blunder2"], ["unknown_to"],
             ["angle_fs_missing"], ["blunder_w"], ["zangle_mid"]]
     for k in range(ctx.size(140, 600)):
         dim = 3 if k % 3 == 2 else None
